@@ -369,7 +369,7 @@ func h2steps(sp h2spec) []h2step {
 		}})
 	}
 	if sp.Bodiless {
-		st = append(st, h2step{"response HEADERS with END_STREAM sent", []string{"YResp false"}, func(r *h2run) error {
+		st = append(st, h2step{"response HEADERS with END_STREAM sent", []string{"YResp false", "YEnd"}, func(r *h2run) error {
 			if err := r.pc.headers(r.sid, true, ":status", "200", "content-length", "0"); err != nil {
 				return err
 			}
